@@ -150,9 +150,10 @@ def structSize (rec : Rec) (d : StructDef) (vs : List (String × Val)) : R Nat :
 
 def typeSizeStep (S : Schema) (rec : Rec) (ty : String) (v : Val) : R Nat :=
   match S.find ty with
-  | some (.int w _) => .ok w
-  | some (.bytes n) => .ok n
-  | some (.enum w _ _ _) => .ok w
+  -- the `size` of a wrapper object; `None` (or anything else) has no such attribute
+  | some (.int w _) => (match v with | .int _ => .ok w | _ => .error .shape)
+  | some (.bytes n) => (match v with | .bytes b => if b.length == n then .ok n else .error .shape | _ => .error .shape)
+  | some (.enum w _ _ _) => (match v with | .int _ => .ok w | _ => .error .shape)
   | some (.struct d) =>
     match v with
     | .struct vty vs =>
@@ -444,6 +445,11 @@ def decPayload (S : Schema) (T : String → Bytes → Bytes) (rec : Rec) (env : 
       else do
         let l ← decArrayFill rec elem (view.length + 1) view
         if l.length > maxCount then throw .unsupported
+        -- `read_array(buffer, T, accessor)`: a keyed fill array must be strictly ascending
+        let sorted ← (match sortKey with
+          | none => .ok true
+          | some k => do let keys ← l.mapM (sortKeyOf S T elem k); .ok (strictlyAscending keys))
+        if !sorted then throw .unsorted
         let ss ← elemSizes rec elem l
         .ok (.arr l, arraySize ss 0 padLast)
 
